@@ -161,7 +161,7 @@ mod v_iface_ingress {
         }
     }
 
-    // @harness props=C11,C10 cfg=KI4 tier=q to=900 mem=8 unwind=8 opts=nomem covers=4 funcs=InterfaceInner::process_ip;InterfaceInner::process_ipv4;InterfaceInner::process_tcp;tcp::Socket::accepts;tcp::Socket::process;tcp::Socket::rst_reply bounds=raw-IP_medium;_own_address_192.168.1.1/24;_any_IPv4_source_and_destination;_any_ports,_flags,_seq/ack;_socket_set:_one_TCP_listener_on_port_80
+    // @harness props=C11,C10 cfg=KI4 tier=q to=1500 mem=12 unwind=8 opts=nomem covers=4 funcs=InterfaceInner::process_ip;InterfaceInner::process_ipv4;InterfaceInner::process_tcp;tcp::Socket::accepts;tcp::Socket::process;tcp::Socket::rst_reply bounds=raw-IP_medium;_own_address_192.168.1.1/24;_any_IPv4_source_and_destination;_any_ports,_flags,_seq/ack;_socket_set:_one_TCP_listener_on_port_80
     #[kani::proof]
     pub(crate) fn ipv4_addr_tcp() {
         env4_tcp!(iface, sockets, th, Medium::Ip, ChecksumCapabilities::ignored());
